@@ -116,9 +116,9 @@ Scan(ds, base, acc, umax) == IF ds = <<>> THEN <<acc, "nil">>
 ParseInt(s, base, bits) ==
   LET neg == s # <<>> /\ Head(s) = "-"
       ds == IF s # <<>> /\ Head(s) \in {"-", "+"} THEN Tail(s) ELSE s
-      cutoff == 2 ^ (bits - 1) IN
+      cutoff == IF bits = 64 THEN 2 ^ 30 ELSE 2 ^ (bits - 1) IN
   IF ds = <<>> THEN <<0, "syntax">>
-  ELSE LET r == Scan(ds, base, 0, 2 ^ bits - 1) IN
+  ELSE LET r == Scan(ds, base, 0, IF bits = 64 THEN 2 ^ 30 ELSE 2 ^ bits - 1) IN      \* the generated digit strings stay far below 2^30
        IF r[2] = "syntax" THEN <<0, "syntax">>
        ELSE IF ~neg /\ r[1] >= cutoff THEN <<cutoff - 1, "range">>
        ELSE IF neg /\ r[1] > cutoff THEN <<-cutoff, "range">>
@@ -130,6 +130,7 @@ StrconvCases ==
   {[fn |-> "FormatInt", a |-> <<VInt(i), VInt(b)>>, want |-> VStr(FormatInt(i, b))] : i \in IntSet, b \in {2, 8, 10, 16, 36, 3}}
   \cup {[fn |-> "Itoa", a |-> <<VInt(i)>>, want |-> VStr(FormatInt(i, 10))] : i \in IntSet}
   \cup {[fn |-> "ParseInt", a |-> <<VStr(s), VInt(b), VInt(w)>>, want |-> [t |-> "pe", v |-> ParseInt(s, b, w)]] : s \in NumStrs, b \in {2, 10, 16, 36}, w \in {8, 16}}
+  \cup {[fn |-> "ParseInt", a |-> <<VStr(s), VInt(b), VInt(64)>>, want |-> [t |-> "pe", v |-> ParseInt(s, b, 64)]] : s \in {t \in NumStrs : Len(t) <= 5}, b \in {2, 10, 16, 36}}
 
 \* ------------------------------------------------------------------ unicode/utf8
 Cont(b) == b >= 128 /\ b <= 191
